@@ -45,6 +45,9 @@ def run(ctx):
     check_native_init(ctx, prog)
     check_start(ctx, prog)
     check_deadline(ctx, prog)
+    import retself
+    n = retself.check(ctx, prog, 'R-RETSELF', ('asl::ThreadGroup', 'asl::Thread', 'asl::Array'))
+    ctx.floor('R-RETSELF members', n, 2)
     return __doc__.split('\n\n', 1)[1]
 
 
